@@ -91,9 +91,12 @@ def key_hash(key):
     return hashlib.blake2b(key.encode(), digest_size=5).hexdigest()
 
 
+OUT = os.environ.get("VF_OUT") or VERIF      # where evidence/ and replays/ are written (VF_OUT: runs against scratch trees)
+
+
 def write_replay(pid, v):
-    os.makedirs(os.path.join(VERIF, "replays"), exist_ok=True)
-    path = os.path.join(VERIF, "replays", "%s-%s.json" % (pid, key_hash(v["key"])))
+    os.makedirs(os.path.join(OUT, "replays"), exist_ok=True)
+    path = os.path.join(OUT, "replays", "%s-%s.json" % (pid, key_hash(v["key"])))
     with open(path, "w") as f:
         json.dump(dict(property=pid, key=v["key"], message=v["message"], job=v["job"],
                        choices=v["choices"], ndev=v["ndev"], count=v["count"]), f, indent=1, default=repr)
@@ -233,8 +236,8 @@ def main(argv=None):
     ev = dict(property_id=pid, tier=tier, seed=seed, level=mod.LEVEL, coverage=cov,
               assumptions=list(getattr(mod, "ASSUMPTIONS", [])), wall_s=round(wall, 3),
               violations=len(viols))
-    os.makedirs(os.path.join(VERIF, "evidence"), exist_ok=True)
-    evpath = os.path.join(VERIF, "evidence", pid + ".json")
+    os.makedirs(os.path.join(OUT, "evidence"), exist_ok=True)
+    evpath = os.path.join(OUT, "evidence", pid + ".json")
     with open(evpath, "w") as f:
         json.dump(ev, f, indent=1, default=repr)
     ok = validate_evidence(evpath)
